@@ -24,6 +24,7 @@ Blob *newBlob();
 const std::string getName();
 const std::string *newName();
 const std::string &peekName();
+const std::string *ownedName();
 int *newInts(int *n);
 int *peekInts(int *n);
 void useName(const std::string &name);
